@@ -17,7 +17,7 @@ struct is_class_or_union
     static const bool value = sizeof(is_class_or_union_tester<T>(0)) == sizeof(char);
 };
 
-template <int I>
+template <unsigned I>
 struct int2type
 {
     enum { value = I };
